@@ -74,9 +74,11 @@ C["C16"]={"jobs":[job("setters",".","VH_ClientSetters",["C16/"],{},Q,bounds="7 s
    job("wire-100",".","VH_StatusWire",["C16/"],{"maxlen":0,"long":1},Q,bounds="FromWireFormat: buffer length 100")],
    "assumptions":CLIENT_ASSUME+["UAPI constants transcribed from /usr/include/linux/audit.h of this image (see harness constants vUAPI_*)"],"outside":["the live kernel"]}
 C["C17"]={"jobs":[job("history-k3",".","VH_ClientHistory",["C17/"],{"k":3},QO,bounds="histories of 3 operations from {setter NoWait, SetPID NoWait, setter WaitForReply, WaitForPendingACKs, GetRules, Close}, kernel errno per request symbolic"),
-   job("history-k4",".","VH_ClientHistory",["C17/"],{"k":4},Q,bounds="histories of 4 operations"),job("history-k5",".","VH_ClientHistory",["C17/"],{"k":5},T,bounds="histories of 5 operations")],
+   job("history-k4",".","VH_ClientHistory",["C17/"],{"k":4},Q,bounds="histories of 4 operations"),job("history-k5",".","VH_ClientHistory",["C17/"],{"k":5},T,bounds="histories of 5 operations"),
+   job("close-2threads",".","VH_ClientCloseConcurrent",["C17/"],{"threads":2,"preemptions":3},Q,no_native=True,bounds="Close from 2 goroutines at once (with and without a prior SetPID), every interleaving at synchronisation operations with at most 3 preemptions, race detection"),
+   job("close-3threads",".","VH_ClientCloseConcurrent",["C17/"],{"threads":3,"preemptions":2},T,no_native=True,bounds="Close from 3 goroutines, at most 2 preemptions")],
    "assumptions":CLIENT_ASSUME+["domain: reply-waiting commands (WaitForReply setters, GetRules) are issued only when no NoWait ACK is outstanding","the simulated kernel reuses one receive buffer"],
-   "outside":["concurrent Close (engine threads; see C17 concurrent job when registered)","the live kernel"]}
+   "outside":["the live kernel"]}
 
 c18=[]
 for n in (0,1,3,4,5,17):
